@@ -77,7 +77,6 @@ pub enum Alter {
   RsKeyIdMine,   // one byte of the key id tagging this receiver's MAC
   RsDropMine,    // this receiver's MAC removed from the list
   RsCount,       // the list length word changed
-  Truncate,      // last byte of the encoded form removed (payload level)
   Append,        // one byte appended (payload level)
   WrongMasterKey, // receiver registered the sender's token with one byte of the master key changed
   WrongSalt,     // ... one byte of the master salt changed
@@ -101,7 +100,6 @@ fn coq_alter(a: Alter) -> String {
     Alter::RsKeyIdMine => "ARsKeyIdMine".into(),
     Alter::RsDropMine => "ARsDropMine".into(),
     Alter::RsCount => "ARsCount".into(),
-    Alter::Truncate => "ATruncate".into(),
     Alter::Append => "AAppend".into(),
     Alter::WrongMasterKey => "AWrongMasterKey".into(),
     Alter::WrongSalt => "AWrongSalt".into(),
@@ -325,10 +323,11 @@ fn datafrag_submessage(fragment: Vec<u8>, total: usize) -> Submessage {
     original_bytes: None,
   }
 }
-fn wire(subs: Vec<Submessage>) -> Option<(usize, Message)> {
+fn wire(subs: Vec<Submessage>, wire_len: &mut i64) -> Option<(usize, Message)> {
   let m = Message { header: Header::new(GuidPrefix::new(&PREFIX)), submessages: subs };
   let bytes = m.write_to_vec_with_ctx(Endianness::LittleEndian).ok()?;
   let n = bytes.len();
+  *wire_len = n as i64;
   Message::read_from_buffer(&Bytes::from(bytes)).ok().map(|m| (n, m))
 }
 fn payload_of(sm: &Submessage) -> Option<Vec<u8>> {
@@ -465,9 +464,6 @@ fn run_case(c: &Case) -> Obs {
         }
         Alter::CommonMac => flip(&mut e, n - 20, 16, c.pos),
         Alter::RsCount => e[n - 1] ^= 0x01,
-        Alter::Truncate => {
-          e.pop();
-        }
         Alter::Append => e.push(0x5a),
         _ => {}
       }
@@ -475,7 +471,7 @@ fn run_case(c: &Case) -> Obs {
         Framing::Data => data_submessage(e),
         Framing::DataFrag => datafrag_submessage(e, 2048),
       };
-      let (wl, msg) = match wire(vec![sub]) {
+      let (wl, msg) = match wire(vec![sub], &mut o.wire_len) {
         Some(x) => x,
         None => {
           o.outcome = "OWireErr".into();
@@ -552,7 +548,7 @@ fn run_case(c: &Case) -> Obs {
         }
         _ => {}
       }
-      let (wl, msg) = match wire(vec![pre, body, post]) {
+      let (wl, msg) = match wire(vec![pre, body, post], &mut o.wire_len) {
         Some(x) => x,
         None => {
           o.outcome = "OWireErr".into();
@@ -655,7 +651,7 @@ fn run_case(c: &Case) -> Obs {
           _ => {}
         }
       }
-      let (wl, msg) = match wire(subs) {
+      let (wl, msg) = match wire(subs, &mut o.wire_len) {
         Some(x) => x,
         None => {
           o.outcome = "OWireErr".into();
@@ -694,12 +690,13 @@ fn applicable(c: &Case) -> bool {
     Alter::RsMacMine | Alter::RsKeyIdMine | Alter::RsDropMine | Alter::NotInList => rs,
     Alter::RsMacOther => rs && c.nrecv >= 2,
     Alter::RsCount => true,
-    Alter::Truncate | Alter::Append => c.level == Level::Payload,
+    Alter::Append => c.level == Level::Payload,
+    Alter::Content => c.level != Level::Payload || c.len > 0,
     _ => true,
   }
 }
 
-const ALTERS: [Alter; 22] = [
+const ALTERS: [Alter; 21] = [
   Alter::None,
   Alter::Kind(1),
   Alter::Kind(2),
@@ -717,7 +714,6 @@ const ALTERS: [Alter; 22] = [
   Alter::RsKeyIdMine,
   Alter::RsDropMine,
   Alter::RsCount,
-  Alter::Truncate,
   Alter::Append,
   Alter::WrongMasterKey,
   Alter::WrongSalt,
@@ -748,7 +744,7 @@ fn coq_case(c: &Case) -> String {
 pub fn run(args: &Args) -> i32 {
   let mut out = CaseOut::new(
     args,
-    "From Coq Require Import List ZArith.\nFrom RD Require Import Common.Corr C16.Model.\nImport ListNotations.\nOpen Scope Z_scope.",
+    "From Coq Require Import List ZArith.\nFrom RD Require Import Common.Corr C16.Model C16.Run.\nImport ListNotations.\nOpen Scope Z_scope.",
     "check run obs_eqb ok",
     "case",
     "obs",
@@ -837,7 +833,11 @@ pub fn run(args: &Args) -> i32 {
       format!("outcome:{}", o.outcome.trim_matches(|x| x == '(' || x == ')').split(' ').next().unwrap_or("")),
     ];
     // known finding: GMAC-protected payload whose encoded length is not a multiple of 4
-    let kf = if c.level == Level::Payload && !is_gcm(c.kind) && c.len % 4 != 0 { "gmac-payload-unaligned" } else { "" };
+    let kf = if c.level == Level::Payload && !is_gcm(c.kind) && c.len % 4 != 0 && c.framing == Framing::Data {
+      "gmac-payload-unaligned"
+    } else {
+      ""
+    };
     out.push_kf(
       idx,
       coq_case(c),
